@@ -159,10 +159,52 @@ def _unbounded_leg(ns, res, rng, count, node):
                     res.count('js_reads_within_budget')
 
 
+JS_VALUE_QUERIES = ['parseInt(a1), a2', 'a2.split(":")[1], a1', '1 / (a1 == "0" ? 0 : 1), a2', 'Number(a1), a2.length', '[a1, parseInt(a1)], a2', 'a3, parseInt(a1)', 'Math.sqrt(-1 * (a1 == "x" ? 1 : 0)), a1']
+
+
+def js_values_leg(res, rng, count):
+    """JS values that do not survive a JSON round trip (NaN, Infinity, undefined): DISTINCT / DISTINCT COUNT must emit the very records the same
+    query yields without them (first occurrence of each), prefixed by the multiplicity."""
+    import json
+    from ..js import bridge
+    node = bridge.Node.start()
+    if node is None:
+        res.notes.append('js values leg: unavailable (no node)')
+        return
+    try:
+        for _ in range(count):
+            A = [[rng.choice(['1', '2', 'x', '0', '7z', '']), rng.choice(['a:b', 'c', 'a:b', 'k:']), rng.choice(['p', 'q'])] for _ in range(rng.randrange(1, 9))]
+            sel = rng.choice(JS_VALUE_QUERIES)
+            order = rng.choice(['', ' order by a2', ' order by a1 desc'])
+            reqs = [{'query': 'select %s%s' % (sel, order), 'input': A}, {'query': 'select distinct %s%s' % (sel, order), 'input': A}, {'query': 'select distinct count %s%s' % (sel, order), 'input': A}]
+            plain, dist, cnt = node.call({'op': 'query_batch', 'cases': reqs})['results']
+            res.evaluations += 1
+            res.count('js_value_cases')
+            res.nontrivial('js-values', sel, order, repr(A))
+            if plain['error'] or dist['error'] or cnt['error']:
+                res.violation('js:values-leg-query-failed', '[js] %r over %r failed: %r' % (sel, A, [x['error'] for x in (plain, dist, cnt)]), {'leg': 'js-values', 'sel': sel, 'A': A})
+                continue
+
+            def key(row):       # what JSON.stringify sees: NaN, Infinity and undefined all become null
+                return json.dumps([None if isinstance(v, dict) and '__js__' in v else v for v in row])
+            groups = {}
+            for r in plain['out']:
+                groups.setdefault(key(r), [0, r])[0] += 1
+            exp_dist = [g[1] for g in groups.values()]
+            exp_cnt = [[g[0]] + g[1] for g in groups.values()]
+            if dist['out'] != exp_dist:
+                res.violation('js:distinct-records-differ-from-unbounded-query', '[js] select distinct %s%s over %r -> %r ; the first occurrences in the plain result are %r' % (sel, order, A, dist['out'], exp_dist), {'leg': 'js-values', 'sel': sel, 'order': order, 'A': A})
+            if cnt['out'] != exp_cnt:
+                res.violation('js:distinct-count-records-differ-from-unbounded-query', '[js] select distinct count %s%s over %r -> %r ; expected %r' % (sel, order, A, cnt['out'], exp_cnt), {'leg': 'js-values', 'sel': sel, 'order': order, 'A': A})
+    finally:
+        node.close()
+
+
 def plan(tier, seed):
     k = NSHARDS[tier]
     specs = [{'kind': 'bases', 'k': k, 'i': i, 'n': BASES[tier] // k} for i in range(k)]
     specs += [{'kind': 'unbounded', 'i': i, 'n': UNBOUNDED[tier]} for i in range(4)]
+    specs.append({'kind': 'js-values', 'n': 300 if tier == 'quick' else 5000})
     return specs
 
 
@@ -171,6 +213,9 @@ def run_shard(spec, res):
     rng = random.Random(spec['seed'] * 7919 + spec['shard'] * 31 + 5)
     if spec['kind'] == 'unbounded':
         unbounded_leg(ns, res, rng, spec['n'])
+        return
+    if spec['kind'] == 'js-values':
+        js_values_leg(res, rng, spec['n'])
         return
     js = common.JsLeg(res, PROPERTY, classify_js_only)
     try:
@@ -214,7 +259,7 @@ def summarize(tier, seed, m):
     shapes = sorted(k[6:] for k in m['counters'] if k.startswith('shape:'))
     return {
         'rule': 'base queries over tables with many duplicate keys: ORDER BY 1-2 keys (str / int / len / mixed) x ASC/DESC x {none, DISTINCT, DISTINCT COUNT} x {WHERE, JOIN, UNNEST}; for each base every bound n in 0..|out|+1 (TOP and LIMIT) is executed and compared with the prefix of the unbounded run and with the reference; ASC/DESC pairs compared as exact reverses; streaming bounded queries are run over an unbounded lazy input with a read budget equal to the position of the record producing output n+1. distinct_nontrivial = distinct bases with more than one output row + distinct unbounded runs.',
-        'required': ['py_cases', 'bound_runs', 'asc_desc_pairs', 'unbounded_runs', 'reads_within_budget', 'js_cases', 'js_unbounded_runs', 'js_reads_within_budget'],
+        'required': ['js_value_cases', 'py_cases', 'bound_runs', 'asc_desc_pairs', 'unbounded_runs', 'reads_within_budget', 'js_cases', 'js_unbounded_runs', 'js_reads_within_budget'],
         'extra': {'shapes_seen': shapes},
         'assumptions': ['termination clause restated as bounded progress: reads <= position of the record producing output n+1; inputs on which output n+1 never exists are not used'],
     }
